@@ -116,4 +116,214 @@ theorem depth_bounded (macros nesting : List String) (hn : nesting.Nodup) (hsub 
     nesting.length ≤ macros.eraseDups.length := by
   exact (List.subperm_of_subset hn (fun x hx => hsub x hx)).length_le
 
+/-- with more fuel than characters `replaceWord` never stops for lack of fuel -/
+theorem replaceWord_fuel (p rep : List Char) : ∀ (n f1 f2 : Nat) (prev : Option Char) (cs : List Char),
+    cs.length ≤ n → cs.length < f1 → cs.length < f2 → replaceWord p rep f1 prev cs = replaceWord p rep f2 prev cs := by
+  intro n
+  induction n with
+  | zero =>
+    intro f1 f2 prev cs hn h1 h2
+    have : cs = [] := List.eq_nil_of_length_eq_zero (by omega)
+    subst this
+    cases f1 <;> cases f2 <;> simp_all [replaceWord]
+  | succ n ih =>
+    intro f1 f2 prev cs hn h1 h2
+    cases cs with
+    | nil => cases f1 <;> cases f2 <;> simp_all [replaceWord]
+    | cons c cs =>
+      cases f1 with
+      | zero => simp at h1
+      | succ f1 =>
+        cases f2 with
+        | zero => simp at h2
+        | succ f2 =>
+          simp only [List.length_cons] at hn h1 h2
+          simp only [replaceWord]
+          apply ite_congr rfl
+          · intro hc
+            have hp : p ≠ [] := by intro e; simp [e] at hc
+            have hpl : 0 < p.length := List.length_pos_iff.mpr hp
+            rw [ih f1 f2 p.getLast? ((c :: cs).drop p.length)
+              (by simp only [List.length_drop, List.length_cons]; omega)
+              (by simp only [List.length_drop, List.length_cons]; omega)
+              (by simp only [List.length_drop, List.length_cons]; omega)]
+          · intro _
+            rw [ih f1 f2 (some c) cs (by omega) (by omega) (by omega)]
+
+/-! ### whole-word replacement on a body seen as words and separators -/
+
+/-- a body token: a maximal run of identifier characters, or a run of other characters -/
+inductive Tk where
+  | word (w : List Char)
+  | sep (s : List Char)
+  deriving DecidableEq, Repr
+
+def Tk.chars : Tk → List Char
+  | .word w => w | .sep s => s
+def Tk.isWord : Tk → Bool
+  | .word _ => true | .sep _ => false
+def flat (ts : List Tk) : List Char := ts.flatMap Tk.chars
+
+/-- well-formed tokens: non-empty, words of identifier characters, separators of other characters -/
+def Tk.WF : Tk → Prop
+  | .word w => w ≠ [] ∧ ∀ c ∈ w, isWordChar c = true
+  | .sep s => s ≠ [] ∧ ∀ c ∈ s, isWordChar c = false
+
+/-- no two words are adjacent (otherwise they would be one word) -/
+def NoAdjWords : List Tk → Prop
+  | [] => True
+  | [_] => True
+  | a :: b :: rest => ¬ (a.isWord = true ∧ b.isWord = true) ∧ NoAdjWords (b :: rest)
+
+/-- the character before the text permits a word to start here -/
+def BoundaryOk (prev : Option Char) : List Tk → Prop
+  | .word _ :: _ => match prev with | none => True | some q => isWordChar q = false
+  | _ => True
+
+/-- the replacement: every word equal to the parameter becomes `rep`, everything else is kept -/
+def substWord (p rep : List Char) (ts : List Tk) : List Char :=
+  ts.flatMap fun t => if t = .word p then rep else t.chars
+
+/-- scanning separator characters replaces nothing -/
+theorem replaceWord_sep (p rep : List Char) (hp : p ≠ []) (hpw : ∀ c ∈ p, isWordChar c = true) :
+    ∀ (s : List Char) (r : List Char) (fuel : Nat) (prev : Option Char), s ≠ [] → (∀ c ∈ s, isWordChar c = false) →
+      (s ++ r).length < fuel →
+      replaceWord p rep fuel prev (s ++ r) = s ++ replaceWord p rep (fuel - s.length) s.getLast? r := by
+  intro s
+  induction s with
+  | nil => intro r fuel prev h; exact absurd rfl h
+  | cons c cs ih =>
+    intro r fuel prev _ hs hf
+    have hc : isWordChar c = false := hs c (by simp)
+    cases fuel with
+    | zero => simp at hf
+    | succ fuel =>
+      -- the parameter starts with an identifier character, `c` is not one: no match here
+      have hnp : isPrefix p (c :: (cs ++ r)) = false := by
+        cases p with
+        | nil => exact absurd rfl hp
+        | cons a as =>
+          have ha : isWordChar a = true := hpw a (by simp)
+          simp only [isPrefix, Bool.and_eq_false_iff, beq_eq_false_iff_ne, ne_eq]
+          left; intro e; rw [e] at ha; rw [ha] at hc; cases hc
+      simp only [List.cons_append, replaceWord, hnp, Bool.and_false, Bool.false_and, Bool.false_eq_true, if_false]
+      cases cs with
+      | nil => simp
+      | cons d ds =>
+        have := ih r fuel (some c) (by simp) (fun x hx => hs x (by simp [hx])) (by simp at hf ⊢; omega)
+        rw [this]
+        simp [List.getLast?_cons_cons]
+
+
+/-- inside a word (the previous character is an identifier character) nothing is replaced up to
+    the end of the word -/
+theorem replaceWord_inside (p rep : List Char) : ∀ (cs r : List Char) (fuel : Nat) (q : Char),
+    isWordChar q = true → (∀ c ∈ cs, isWordChar c = true) → (cs ++ r).length < fuel →
+      replaceWord p rep fuel (some q) (cs ++ r) = cs ++ replaceWord p rep (fuel - cs.length) (some ((q :: cs).getLast (by simp))) r := by
+  intro cs
+  induction cs with
+  | nil => intro r fuel q _ _ _; simp
+  | cons c cs ih =>
+    intro r fuel q hq hcs hf
+    have hc : isWordChar c = true := hcs c (by simp)
+    cases fuel with
+    | zero => simp at hf
+    | succ fuel =>
+      simp only [List.cons_append, replaceWord, hq, Bool.not_true, Bool.false_and, Bool.false_eq_true, if_false]
+      rw [ih r fuel c hc (fun x hx => hcs x (by simp [hx])) (by simp at hf ⊢; omega)]
+      simp [List.getLast_cons]
+
+theorem isPrefix_append_self (p r : List Char) : isPrefix p (p ++ r) = true := by
+  induction p with
+  | nil => rfl
+  | cons a as ih => simp [isPrefix, ih]
+
+/-- "the previous character is not an identifier character (or there is none)" -/
+def bnd : Option Char → Bool
+  | none => true
+  | some q => !isWordChar q
+/-- "the text starts with a non-identifier character (or is empty)" -/
+def endOk : List Char → Bool
+  | [] => true
+  | d :: _ => !isWordChar d
+
+theorem replaceWord_step (p rep : List Char) (fuel : Nat) (prev : Option Char) (c : Char) (cs : List Char) :
+    replaceWord p rep (fuel + 1) prev (c :: cs) =
+      if (bnd prev && !p.isEmpty && isPrefix p (c :: cs) && endOk ((c :: cs).drop p.length)) = true
+      then rep ++ replaceWord p rep fuel p.getLast? ((c :: cs).drop p.length)
+      else c :: replaceWord p rep fuel (some c) cs := by
+  cases prev <;> cases h : (c :: cs).drop p.length <;> simp [replaceWord, bnd, endOk, h]
+
+/-- a parameter name can only match at the start of a word if it is that whole word -/
+theorem no_partial_match (p : List Char) (hpw : ∀ c ∈ p, isWordChar c = true)
+    (w r : List Char) (hww : ∀ c ∈ w, isWordChar c = true) (hr : endOk r = true) (hwp : w ≠ p) :
+    (isPrefix p (w ++ r) && endOk ((w ++ r).drop p.length)) = false := by
+  by_cases hpre : isPrefix p (w ++ r) = true
+  · obtain ⟨t, ht⟩ := isPrefix_split p _ hpre
+    by_cases hl : p.length < w.length
+    · -- p is a proper prefix of the word: an identifier character follows
+      rw [List.drop_append_of_le_length (by omega)]
+      cases hd : w.drop p.length with
+      | nil =>
+        have := congrArg List.length hd
+        simp only [List.length_drop, List.length_nil] at this; omega
+      | cons d ds =>
+        have hdm : d ∈ w := List.mem_of_mem_drop (by rw [hd]; simp)
+        simp [endOk, hww d hdm]
+    · -- p is at least as long as the word: then p = word ++ q, q a non-empty prefix of r
+      exfalso
+      have hle : w.length ≤ p.length := by omega
+      have hpw' : p.take w.length = w := by
+        have := congrArg (List.take w.length) ht
+        rw [List.take_left, List.take_append_of_le_length hle] at this
+        exact this.symm
+      by_cases heq : p.length = w.length
+      · apply hwp
+        rw [← hpw', ← heq, List.take_length]
+      · have hlt : w.length < p.length := by omega
+        have h3 : w.length < (w ++ r).length := by
+          have := congrArg List.length ht
+          simp only [List.length_append] at this ⊢; omega
+        have hidx : (p[w.length]'hlt) = ((w ++ r)[w.length]'h3) := by
+          have h1 : (w ++ r)[w.length]? = (p ++ t)[w.length]? := by rw [ht]
+          rw [List.getElem?_append_left hlt, List.getElem?_eq_getElem hlt, List.getElem?_eq_getElem h3] at h1
+          exact (Option.some.inj h1).symm
+        have hpc : isWordChar (p[w.length]'hlt) = true := hpw _ (List.getElem_mem _)
+        rw [hidx, List.getElem_append_right (Nat.le_refl _)] at hpc
+        cases r with
+        | nil => simp only [List.append_nil] at h3; omega
+        | cons d ds =>
+          simp only [Nat.sub_self, List.getElem_cons_zero] at hpc
+          simp [endOk, hpc] at hr
+  · simp only [Bool.not_eq_true] at hpre; simp [hpre]
+
+/-- a word followed by a separator (or the end): replaced as a whole iff it IS the parameter -/
+theorem replaceWord_word (p rep : List Char) (hp : p ≠ []) (hpw : ∀ c ∈ p, isWordChar c = true)
+    (w r : List Char) (fuel : Nat) (prev : Option Char) (hw : w ≠ []) (hww : ∀ c ∈ w, isWordChar c = true)
+    (hprev : bnd prev = true) (hr : endOk r = true) (hf : (w ++ r).length < fuel) :
+    replaceWord p rep fuel prev (w ++ r) = (if w = p then rep else w) ++ replaceWord p rep (fuel - w.length) w.getLast? r := by
+  cases w with
+  | nil => exact absurd rfl hw
+  | cons c cs =>
+    have hc : isWordChar c = true := hww c (by simp)
+    cases fuel with
+    | zero => simp at hf
+    | succ fuel =>
+      simp only [List.length_append, List.length_cons] at hf
+      rw [List.cons_append, replaceWord_step, ← List.cons_append]
+      by_cases hwp : c :: cs = p
+      · -- the word is the parameter: it matches here, as a whole
+        subst hwp
+        rw [isPrefix_append_self, List.drop_left, hr, hprev]
+        simp only [List.isEmpty_cons, Bool.not_false, Bool.and_self, if_true]
+        rw [replaceWord_fuel (c :: cs) rep r.length fuel (fuel + 1 - (c :: cs).length) _ r (Nat.le_refl _)
+          (by omega) (by simp only [List.length_cons]; omega)]
+      · -- the word is not the parameter: no match at its first character, none inside it
+        have hno := no_partial_match p hpw (c :: cs) r hww hr hwp
+        rw [Bool.and_assoc, hno, Bool.and_false, if_neg hwp]
+        simp only [Bool.false_eq_true, if_false]
+        rw [replaceWord_inside p rep cs r fuel c hc (fun x hx => hww x (by simp [hx]))
+          (by simp only [List.length_append]; omega)]
+        simp [List.getLast?_eq_some_getLast]
+
 end Emu8086.Props.C13
